@@ -60,7 +60,8 @@ PLAN = {
                 "capacity-starved with 24..99 node slots so operations fail with OutOfMemory) with the FULL structural audit after "
                 "EVERY step: level of each node, children strictly below, per-kind reduction rule, no duplicate children per level, "
                 "len()/num_inner_nodes() agreement, var<->level maps inverse permutations, then-edge uncomplemented (bcdd), "
-                "node_count == size of the reduced diagram computed from the truth table. Audits also run inside C01/C05/C06/C08/C14. "
+                "node_count == size of the reduced diagram computed from the truth table. The same audit runs after every DDDMP import "
+                "that the importer accepts from hand-damaged and byte-mutated ASCII/binary files (c15_malformed). Audits also run inside C01/C05/C06/C08/C14. "
                 "distinct = distinct (kind, operation, non-constant result table, #vars).",
         "assumptions": ["audit only at quiescent points, under the manager's exclusive lock"],
         "jobs": [
@@ -279,7 +280,8 @@ PLAN = {
         "rule": "{bdd,bcdd,zbdd} x 6 orders, n=3: all 256 functions x all 8 choice vectors (pick_cube and pick_cube_dd, choice "
                 "protocol: once per level, node of that level) x all 27 literal sets (pick_cube_dd_set), judged by a reference walk "
                 "over truth tables (forced / free / irrelevant per level); random n=4..8; pick_cube_uniform: no non-model, chi-square "
-                "vs uniform over models on fixed seeds (threshold at z=6.2). distinct = distinct (kind, function, choice vector or "
+                "vs uniform over models on fixed seeds (threshold at z=6.2), also with one SatCountCache kept across set_var_order, gc, "
+                "other handles and add_vars(1..3). distinct = distinct (kind, function, choice vector or "
                 "literal set, order) where a real choice existed.",
         "assumptions": ["uniformity is a statistical statement (fixed seeds, p<1e-9 threshold)"],
         "jobs": [
